@@ -35,6 +35,8 @@ def name_event(e, good_pairs):
     o = e["ty"]
     if e["lang"] != "typescript":
         a, o = typecases.collapse(a), typecases.collapse(o)
+    if e.get("noptr"):
+        a, o = typecases.slice_opt(a), typecases.slice_opt(o)
     if e["pos"] not in ("alias", "const") and a["k"] == "opt":
         a = a["e"]
         if e["lang"] != "typescript" and o.get("k") == "opt":
@@ -98,7 +100,7 @@ def run(chk):
     def rnd(d):
         if d == 0 or rng.random() < 0.15:
             r = rng.random()
-            return {"k": "prim", "n": rng.choice(prims)} if r < 0.7 else ({"k": "user", "n": "User", "args": []} if r < 0.85 else {"k": "param", "n": "T"})
+            return {"k": "prim", "n": rng.choice(prims)} if r < 0.7 else ({"k": "user", "n": rng.choice(["User", "User", "Ren"]), "args": []} if r < 0.85 else {"k": "param", "n": "T"})
         c = rng.choice(["vec", "array", "slice", "option", "ref", "path", "wrap", "map", "gen"])
         if c == "wrap":
             return {"k": "wrap", "w": rng.choice(["Box", "Arc", "Rc", "Cow", "Cell", "RefCell", "Mutex", "RwLock"]), "e": rnd(d - 1)}
